@@ -11,7 +11,9 @@ No ninja binary exists in the sandbox: these folds are written from the manual a
 """
 from pyvc.terms import Fold, CharClass, ite, eq, unit, empty, AND, OR, NOT
 
-NORMAL, DOLLAR = 0, 1
+NORMAL, DOLLAR, REF = 0, 1, 2      # REF: inside `${name}`
+VAR = -2
+LBRACE, RBRACE = ord('{'), ord('}')
 DOLLAR_CH = ord('$')
 ESCAPABLE = CharClass.of('$ :', 'nj-escapable')
 VALUE_END = CharClass.of('\n\r', 'nj-value-end')     # \r: ninja rejects carriage returns outright
@@ -22,11 +24,17 @@ def _step(endcls):
     def step(st, c):
         q, ok = st
         is_d = eq(c, DOLLAR_CH)
-        q2 = ite(eq(q, NORMAL), ite(is_d, DOLLAR, NORMAL), NORMAL)
+        is_l, is_r = eq(c, LBRACE), eq(c, RBRACE)
+        q2 = ite(eq(q, NORMAL), ite(is_d, DOLLAR, NORMAL),
+             ite(eq(q, DOLLAR), ite(is_l, REF, NORMAL),
+                 ite(is_r, NORMAL, REF)))
         bad = OR(AND(eq(q, NORMAL), endcls.contains(c)),
-                 AND(eq(q, DOLLAR), NOT(ESCAPABLE.contains(c))))
+                 AND(eq(q, DOLLAR), NOT(OR(ESCAPABLE.contains(c), is_l))),
+                 AND(eq(q, REF), OR(is_d, is_l, endcls.contains(c))))
         ok2 = ite(bad, 0, ok)
-        out = ite(eq(q, NORMAL), ite(is_d, empty(), unit(c)), unit(c))
+        out = ite(eq(q, NORMAL), ite(is_d, empty(), unit(c)),
+              ite(eq(q, DOLLAR), ite(is_l, empty(), unit(c)),
+                  ite(is_r, unit(VAR), empty())))
         return (q2, ok2), out
     return step
 
